@@ -41,12 +41,13 @@ func (e *Env) Step(op lib.M) (out any, dbg any) {
 // written as correspondence cases (and monitored); the following mon histories are only monitored.
 func Run(env *Env, want map[string]bool, seed uint64, n, mon int, cs, vs *lib.Sink, dbg bool) int {
 	found := 0
-	nviol := 0
+	nviol := map[string]int{} // per (property, key): a flood of one kind must not starve the others
 	mons := NewMonitors(func(v lib.Violation) {
-		if nviol < 50 {
+		k := v.Property + "|" + v.Key
+		if nviol[k] < 10 {
 			vs.Put(v)
 		}
-		nviol++
+		nviol[k]++
 	})
 	for _, g := range Groups {
 		if len(want) > 0 && !want[g.Name] {
